@@ -175,6 +175,9 @@ PROPS = {
                   K("compiler.py::Compiler.visit_End"),
                   K("tokenize.py::Token.__getitem__"), K("tokenize.py::Token.__add__"),
                   K("template.py::BaseTemplate.write@str"),
+                  # whether a tag is reproduced or swallowed depends on its namespace: the scope stack
+                  K("parser.py::ElementParser.__init__"), K("parser.py::ElementParser.visit_empty_tag"),
+                  K("parser.py::ElementParser.visit_start_tag"),
                   U('pyvc.frames', 'tag_nodes_frame', 'visit_element.tag_node_fields'),
                   U('pyvc.regexlang', 'attr_name_unit', 'attr_name.layers_agree'),
                   U('bounded.units', 'verbatim', 'B-VERBATIM'), U('bounded.units', 'attrs', 'B-ATTR')],
@@ -257,7 +260,8 @@ PROPS = {
                       "contains template-language markup (complete over the statement catalogue).",
         "level_note": "parse_tag is an assumed contract (frame: it mutates only the map it is given). "
                       "Enumeration is complete for 15 statements x 4 spellings, not for all documents.",
-        "units": [K("parser.py::ElementParser.visit_empty_tag"), K("parser.py::ElementParser.visit_start_tag"),
+        "units": [K("parser.py::ElementParser.__init__"),
+                  K("parser.py::ElementParser.visit_empty_tag"), K("parser.py::ElementParser.visit_start_tag"),
                   U('pyvc.spelling', 'unit', 'spelling', needs_k3=True)],
         "not_decided": ["unpack_attributes / convert_data_attributes / prepare_attributes drop clause (covered by the spelling / no-leak enumeration and B-ATTR only)",
                         "namespace-element form (<tal:block>)"],
